@@ -286,7 +286,8 @@ def r162(facts, res, ctx):
                     bad += 1
                     why = 'reduce_states set under conditions flag=%s one=%s others=%s' % (fl, one, [fmt_term(o) for o in others])
             else:
-                if (fl == [0]) or (fl == [1] and one == [0]):
+                # either conjunct found false, in whichever order they are tested
+                if fl == [0] or one == [0]:
                     good += 1
                 else:
                     bad += 1
@@ -302,6 +303,12 @@ def r162(facts, res, ctx):
         for p in w.run(bb, stop=lambda x: x in headers):
             incs = [(k, v) for k, v in p.env.items() if isinstance(k[0], int) and not k[1] and isinstance(v, tuple) and v[0] == 'bin' and v[1] == 'Add' and is_const(v[3]) and v[3][1] == 1]
             took = [v for c, v in p.conds if is_call(c, 'set')]
+            # branch-free spelling: counter += i32::from(set(..)) adds the bool itself (1 exactly when the bit is new)
+            direct = [(k, v) for k, v in p.env.items() if isinstance(k[0], int) and not k[1] and isinstance(v, tuple) and v[0] == 'bin' and v[1] == 'Add'
+                      and any(x[0] in ('conv', 'cast') and is_call(strip_ref(x[2]), 'set') for x in (v[2], v[3]) if isinstance(x, tuple) and len(x) > 2)]
+            if direct and not took:
+                okc = True
+                continue
             if incs and took == [1]:
                 okc = True
             if incs and took != [1]:
